@@ -216,7 +216,7 @@ func (c *Ctx) Finish(explanation string) int {
 	fmt.Sscan(os.Getenv("VERIF_SEED"), &seed)
 	ev := evidence{PropertyID: c.Prop, Tier: c.Tier, Seed: seed, Level: "other", Coverage: cov,
 		Assumptions: append([]string{
-			"the source under /repo is what is built (default build configuration linux/amd64, no tags; thorough adds windows and gui where anchored)",
+			"the source under /repo is what is built (default build configuration linux/amd64, no tags; thorough adds GOOS=windows; the cgo-only gui configuration is not analysable here)",
 			"the decided clause is a structural necessary condition of the property, not the behaviour itself",
 		}, c.Assume...),
 		WallS: time.Since(c.start).Seconds(), Violations: len(viol)}
